@@ -1613,7 +1613,7 @@ pub fn gen_wide(rng: &mut Rng, o: &WideOpts) -> WProgram {
                             4 => (format!("BlendState{}", rng.below(8)), sub("WriteMask", Val::Num(256))),
                             5 => ("BlendState".to_string(), sub("WriteMask", Val::Konst(300))),
                             6 => ("BlendState".to_string(), sub("BlendEnabled", Val::Num(1))),
-                            7 => ("BlendState".to_string(), sub("WriteMask", Val::Agg(vec![Prop { name: "A".into(), val: Val::Num(1) }]))),
+                            7 => ("BlendState".to_string(), sub("WriteMask", Val::Agg(Vec::new()))),
                             _ => ("DefaultBindGroup".to_string(), Val::Agg(vec![Prop { name: "A".into(), val: Val::Num(1) }])),
                         };
                         if let WItem::Pipe(pp) = &mut nodes[p].item {
